@@ -535,3 +535,196 @@ def oracle_hyp_identity(tau):
 
 
 ORACLES = {"einstein": oracle_einstein, "K": oracle_K, "numsym": oracle_numsym}
+
+
+# ------------------------------------------------------------------ proving
+def prove(ctx):
+    """Build Props/C17 and audit axioms.  If the build fails (e.g. a generated definition
+    changed or is missing), elaborate Gen + Lemmas + Props as ONE scratch file: Lean keeps going
+    after an error, so `#print axioms` at the end tells, per theorem, whether it still stands
+    (a theorem that is broken or rests on a broken lemma shows `sorryAx` or is unknown)."""
+    ok, errs, out = ctx.lean_build([MODULE])
+    if ok:
+        ax = ctx.audit(MODULE, THEOREMS)
+        for t in THEOREMS:
+            a = ax.get(t)
+            if a is None:
+                ctx.obligation(t, False, "theorem not found by #print axioms")
+            elif not set(a) <= fw.STD_AXIOMS:
+                ctx.obligation(t, False, "non-standard axioms: %s" % sorted(set(a) - fw.STD_AXIOMS))
+            else:
+                ctx.obligation(t, True, "axioms: " + (", ".join(sorted(a)) or "none"))
+        return True
+    ctx.log("build failed; per-theorem attribution from a single-file elaboration")
+    imports, body = [], []
+    for rp in ("AurelVerif/Gen/Solutions.lean", "AurelVerif/Lemmas/Solutions.lean", "AurelVerif/Props/C17.lean"):
+        txt = fw.strip_lean_comments(open(os.path.join(fw.LEAN, rp)).read())
+        for line in txt.split("\n"):
+            if line.startswith("import "):
+                if not line.startswith("import AurelVerif") and line not in imports:
+                    imports.append(line)
+            else:
+                body.append(line)
+    os.makedirs(os.path.join(fw.LEAN, ".audit"), exist_ok=True)
+    fn = os.path.join(fw.LEAN, ".audit", "C17_single_%d.lean" % os.getpid())
+    lines = imports + body + ["#print axioms %s" % t for t in THEOREMS]
+    with open(fn, "w") as f:
+        f.write("\n".join(lines) + "\n")
+    try:
+        p = subprocess.run(["timeout", "1200", "lake", "env", "lean", fn], cwd=fw.LEAN, capture_output=True, text=True)
+    finally:
+        os.unlink(fn)
+    ctx.checker_cmds.append("lake env lean <Gen+Lemmas+Props in one file, #print axioms per theorem>")
+    txt = p.stdout + p.stderr
+    res = {}
+    for mm in re.finditer(r"'([^']+)' depends on axioms: \[([^\]]*)\]", txt):
+        res[mm.group(1)] = [a.strip() for a in mm.group(2).replace("\n", " ").split(",") if a.strip()]
+    for mm in re.finditer(r"'([^']+)' does not depend on any axioms", txt):
+        res[mm.group(1)] = []
+    bad_decls = {}
+    for mm in re.finditer(r":(\d+):\d+: error[^:]*: (.*)", txt):
+        ln = int(mm.group(1))
+        name = None
+        for i in range(min(ln, len(lines)) - 1, -1, -1):
+            m2 = re.match(r"\s*(?:noncomputable )?(theorem|lemma|def|example)\s+([^\s:({\[]+)?", lines[i])
+            if m2:
+                name = m2.group(2) or "example"
+                break
+        bad_decls.setdefault(name or "?", mm.group(2)[:160])
+    summary = "; ".join("%s: %s" % kv for kv in list(bad_decls.items())[:6])
+    for t in THEOREMS:
+        a = res.get(t)
+        if a is not None and set(a) <= fw.STD_AXIOMS:
+            ctx.obligation(t, True, "stands in single-file elaboration; axioms: " + ", ".join(sorted(a)))
+        elif a is None:
+            ctx.obligation(t, False, "does not elaborate any more. Errors: " + summary)
+        else:
+            ctx.obligation(t, False, "rests on a broken proof (%s). Errors: %s" % (sorted(set(a) - fw.STD_AXIOMS), summary))
+    ctx.notes.append("lake build failed; errors in declarations: " + ", ".join(map(str, bad_decls)))
+    return False
+
+
+# ----------------------------------------------------------------- sentinel
+def run_oracles(ctx, rng, n):
+    """All oracles at n fresh points per module; returns the list of failure dicts."""
+    fails = []
+    for m in ALL_METRIC:
+        for _ in range(n):
+            p = sample_point(rng, m)
+            for name, f in ORACLES.items():
+                try:
+                    fails += f(m, p)
+                except Exception as ex:  # noqa
+                    fails.append({"oracle": name, "module": m, "component": ["exception"], "point": list(p),
+                                  "expected": None, "observed": repr(ex),
+                                  "what": "%s: oracle %s could not be evaluated: %r" % (m, name, ex)})
+                ctx.count("oracle_evaluations")
+            if m == "Schwarzschild_isotropic":
+                fails += oracle_kretschmann(p)
+    for _ in range(max(1, n // 2)):
+        fails += oracle_K_icpert(rng, sample_point(rng, "ICPertFLRW"))
+    return fails
+
+
+def key_of(f):
+    return (f["oracle"], f["module"], ",".join(map(str, f["component"])))
+
+
+def sentinel(ctx, n):
+    """Report a failure only if the same (oracle, module, component) fails again at a second,
+    independent point set (all oracles are tolerance bands)."""
+    first = run_oracles(ctx, ctx.rng, n)
+    found = 0
+    if first:
+        second = {}
+        for f in run_oracles(ctx, ctx.rng, n):
+            second.setdefault(key_of(f), f)
+        seen = set()
+        for f in first:
+            k = key_of(f)
+            if k in second and k not in seen:
+                seen.add(k)
+                found += bool(ctx.violation(
+                    f["what"],
+                    {"kind": "input", "oracle": f["oracle"], "module": f["module"], "component": f["component"],
+                     "point": f["point"], "point2": second[k]["point"], "expected": f["expected"], "observed": f["observed"]},
+                    {"oracle": f["oracle"], "module": f["module"], "component": k[2]}))
+        ctx.notes.append("%d band failure(s) at the first point set, %d reproduced at the second" % (len(first), len(seen)))
+    worst = max(oracle_hyp_identity(ctx.rng.uniform(0.05, 3.0)) for _ in range(max(2, n)))
+    ctx.cov["hypergeometric_identity_worst_rel_residual"] = worst
+    if worst > 1e-20:
+        found += bool(ctx.violation("the antiderivative assumed for Szekeres.integrated_part fails numerically (rel %.2e)" % worst,
+                                    {"kind": "input", "oracle": "hyp_identity", "module": "Szekeres", "component": [], "point": []},
+                                    {"oracle": "hyp_identity", "module": "Szekeres"}))
+    ctx.cov["oracle_points_per_module"] = n
+    return found
+
+
+def run(ctx):
+    ctx.trusted += ["Lean 4.33 kernel; Mathlib real analysis; axioms propext, Classical.choice, Quot.sound",
+                    "py2lean/solutions.py (AST -> real expressions; validated against the real functions at random points, rel 1e-12)",
+                    "grid arrays modelled pointwise over the reals; module constants by their symbolic definitions (float rounding not modelled)",
+                    "numpy/sympy/scipy elementary functions denote the Mathlib functions of the same name; hyp2f1 opaque"]
+    ctx.assumptions += ["Szekeres zz component: integrated_part is an antiderivative of part_to_integrate (hypothesis of the theorem; checked numerically with mpmath), Z != 0",
+                        "Einstein's equations for the closed-form matter of Non_diagonal, Rosquist_Jantzen, Collins_Stewart, Conformally_flat, Szekeres, vacuum of Schwarzschild/Harvey_Tsoubelis, and the Kretschmann scalar are NOT covered by a theorem: numerical sentinel only"]
+    info = None
+    try:
+        changed, info = S.regen()
+        ctx.obligation("py2lean:solutions", not info["failed"],
+                       "regenerated %d definitions (changed=%s)%s" % (info["n_defs"], changed,
+                       "; UNTRANSLATED: " + "; ".join("%s (%s)" % kv for kv in sorted(info["failed"].items())) if info["failed"] else ""),
+                       kind="translation")
+        d = info["defs"].get(("Harvey_Tsoubelis", "Kdown3_12"))
+        if d:
+            ctx.sample({"generated": "Harvey_Tsoubelis.Kdown3_12", "lean": S.lean(d["body"], info["defs"])})
+    except Exception as ex:  # noqa
+        ctx.obligation("py2lean:solutions", False, "translation failed: %r" % ex, kind="translation")
+    prove(ctx)
+    ctx.forbidden_scan(LEAN_FILES)
+    if ctx.tier == "thorough" and not ctx.broken():
+        ctx.leanchecker([MODULE])
+    if info is not None:
+        try:
+            bad = validate_translation(ctx, info, ctx.budget(4, 40))
+            ctx.obligation("translation validation: generated expressions vs real functions (%d comparisons)"
+                           % ctx.cov["translation_validation"]["comparisons"], not bad, "; ".join(bad[:6]),
+                           kind="correspondence")
+        except Exception as ex:  # noqa
+            ctx.obligation("translation validation", False, repr(ex), kind="correspondence")
+    sentinel(ctx, ctx.budget(3, 25) + (7 if ctx.broken() else 0))
+
+
+def replay(ctx, obj):
+    if obj.get("kind") == "unproved":
+        print("replay: re-running the check for the unproved obligation")
+        run(ctx)
+        return 1 if ctx.broken() else 0
+    o, m = obj.get("oracle"), obj.get("module")
+    if o == "hyp_identity":
+        w = oracle_hyp_identity(0.7)
+        print("replay: residual", w)
+        return 1 if w > 1e-20 else 0
+    n = 0
+    for p in (obj.get("point"), obj.get("point2")):
+        if not p:
+            continue
+        if o in ORACLES:
+            fs = ORACLES[o](m, p)
+        elif o == "kretschmann":
+            fs = oracle_kretschmann(p)
+        else:
+            fs = oracle_K_icpert(ctx.rng, p)
+        fs = [f for f in fs if f["component"] == obj.get("component")]
+        for f in fs:
+            print("replay:", f["what"], "at", p)
+        n += len(fs)
+    print("replay: %d failure(s) now" % n)
+    return 1 if n else 0
+
+
+MANIFEST = {
+    "category": "proof",
+    "technique": "Lean 4 / Mathlib theorems (HasDerivAt, real powers, sinh/cosh/exp/log) about real-valued expressions regenerated on every run from the ASTs of solutions/*.py; translation validated against the real functions; independent sympy/mpmath sentinel for the parts without a theorem",
+    "text": "Partial proof. Proven for all t > 0 and all positions (about definitions regenerated from the source each run): (T1) the numpy and sympy branches of every `analytical=` function (metric, lapse, a(t), A, Z_terms) denote the same function, for all 8 modules that have the flag; (T2) Kdown3 is the time-rate of gammadown3, d_t gamma_ij = -2 alpha K_ij, all nine components, for EdS and LCDM (including H = a'/a from the modules' own a(t), Hprop(t) and symbolically related constants), Conformally_flat, Schwarzschild_isotropic (static), Harvey_Tsoubelis, Collins_Stewart, Non_diagonal, Rosquist_Jantzen, Szekeres (eight components unconditionally; zz under the explicit hypothesis that integrated_part is an antiderivative of part_to_integrate, and Z != 0), ICPertFLRW on the EdS background for arbitrary second derivatives of Rc plus its unperturbed limit; lapse and zero shift read off each module's own gdown4; (T3) the Friedmann equation 3H^2 = kappa rho + Lambda for EdS and LCDM and energy conservation for EdS.",
+    "note": "NOT covered by a theorem; numerical sentinel only (sympy derivatives of the module's symbolic 4-metric evaluated with mpmath, textbook curvature, relative tolerance 1e-5 because of decimal coefficients such as 0.0833333; a band failure is reported only if reproduced at a second point set): Einstein's equations for Tdown4/rho/press of Non_diagonal, Rosquist_Jantzen, Collins_Stewart, Conformally_flat, Szekeres, vacuum for Schwarzschild_isotropic and Harvey_Tsoubelis, the ij equations of LCDM; the Schwarzschild Kretschmann scalar; null_ray_exp_out; the hypergeometric antiderivative assumed for Szekeres zz; ICPertFLRW beyond the EdS rate and the background limit. Trusted: Lean kernel + propext/Classical.choice/Quot.sound; the translator (validated at random points to 1e-12 on all 628 generated definitions); reals in place of float64 and symbolic module constants (t_today = 2/(3 H0), ...); Python `/` and safe_division both modelled by Lean `/` with the non-vanishing of divisors stated as hypotheses (t > 0).",
+}
